@@ -200,8 +200,13 @@ func readStream(c *Ctx, frame []byte, conc int, mode int, blockMax int, g *prng.
 	var res readResult
 	// every successful source call hands out at least one byte (zero-length reads are at most every other call)
 	src := &gen.Source{Data: frame, Mode: srcMode, G: g, Budget: 2000 + 3*len(frame)}
+	// half of the readers get a source that can also Seek (as files and bytes.Reader can)
+	var rsrc io.Reader = src
+	if g.Bool() {
+		rsrc = gen.SeekableSource{Source: src}
+	}
 	res.panicky = c.Guard("Reader", func() {
-		r := lz4.NewReader(src)
+		r := lz4.NewReader(rsrc)
 		if err := r.Apply(lz4.ConcurrencyOption(conc)); err != nil {
 			res.err = fmt.Errorf("Apply: %w", err)
 			return
